@@ -7,6 +7,7 @@ import (
 	"sort"
 	"sync"
 	"sync/atomic"
+	"time"
 )
 
 // Verification hooks (build tag verif). setupPrefix returns a bound method, so the
@@ -73,4 +74,17 @@ func (h *Handler) VerifLocked() bool {
 		return false
 	}
 	return true
+}
+
+// VerifAge makes every lease look d older: the equivalent of d of wall-clock time passing
+// (the plugin reads the clock directly, so the model checker cannot advance it otherwise).
+func (h *Handler) VerifAge(d time.Duration) {
+	h.Lock()
+	defer h.Unlock()
+	for k, ls := range h.Records {
+		for i := range ls {
+			ls[i].Expire = ls[i].Expire.Add(-d)
+		}
+		h.Records[k] = ls
+	}
 }
